@@ -16,6 +16,7 @@ import (
 	"os"
 	"runtime/debug"
 	"sort"
+	"strconv"
 	"strings"
 
 	txfile "github.com/elastic/go-txfile"
@@ -65,6 +66,12 @@ func CfgByName(n string) (Cfg, bool) {
 	for _, c := range []Cfg{CfgA, CfgB, CfgC, CfgD, CfgE, CfgF, CfgP16, CfgP17, CfgP21, CfgG, CfgH, CfgU, CfgI254, CfgI255, CfgI256} {
 		if c.Name == n {
 			return c, true
+		}
+	}
+	// "M<n>": plain bounded file of n 1 KiB pages (sweeps over the file size)
+	if len(n) > 1 && n[0] == 'M' {
+		if v, err := strconv.Atoi(n[1:]); err == nil && v >= 64 && v <= 4096 {
+			return Cfg{Name: n, PageSize: 1024, MaxPages: v}, true
 		}
 	}
 	return Cfg{}, false
